@@ -138,6 +138,15 @@ def install_observers(g, obs, target_hi=None, target_lo=None):
             "mol_other_before": other._mol,
             "other_token": getattr(other, "_sx_token", Ref(None)).obj,
         }
+        # reading an accessor must not change what later calls return (a cached value would go stale when the molecule grows)
+        for m_ in (self, other):
+            try:
+                m_.weight
+            except Exception:
+                pass
+        # the descriptor object the caller picked for the new unit (local name of the pinned code; absent after a refactoring)
+        picked = sys._getframe(1).f_locals.get("connecting_bond")
+        rec["picked_num"] = getattr(picked, "descriptor_num", None) if picked is not None and not isinstance(picked, int) else None
         res = MolGen._sx_orig_attach(self, self_bond_idx, other, other_bond_idx, *args, **kwargs)
         rec["after_open"] = [bd_state(b) for b in res.bond_descriptors]
         rec["natoms_after"] = res._mol.GetNumAtoms()
